@@ -164,7 +164,8 @@ def gen_hostile(rng, t, inp, mode=None):
         rows = []
         for sn, a, b in grp:
             tags = (["Painted"] if painted else []) + [x for x in sctags if rng.random() < 0.7] + [x for x in tags_pool[:4] if rng.random() < noise]
-            rows.append(["F", sn, a, b, rng.choice([1, -1]), tags])
+            # now and then a fragment of unknown orientation ('?' is legal AGP; PretextView never writes it)
+            rows.append(["F", sn, a, b, rng.choice([1, -1]) if rng.random() < 0.93 else 0, tags])
         pt.append([f"Scaffold_{n}", rows])
     return pt, labels
 
